@@ -9,7 +9,7 @@
    about an input class where the current code deviates (coincident samples). *)
 From Coq Require Import List ZArith QArith Qcanon Floats Permutation.
 From TK Require Import Mat_Sums Mat_Qc Knn_Spec Tsne_Model Tsne_Vp_Model Tsne_Sym_Model Tsne_Spec
-  Tsne_Proof_Dense Tsne_Proof_Perp Tsne_Proof_K Tsne_Proof_Vp Tsne_Proof_Sym.
+  Tsne_Proof_Dense Tsne_Proof_Perp Tsne_Proof_K Tsne_Proof_Vp Tsne_Proof_Sym Tsne_Proof_Sym2.
 Import ListNotations.
 
 (* ---------------------------------------------------------------- dense algebra (Qc) *)
@@ -235,3 +235,22 @@ Theorem sparse_symmetrise_shape : forall V (vadd : V -> V -> V) (vhalf : V -> V)
   nth N (row_P s) 0%nat = length (col_P s) /\ length (val_P s) = length (col_P s).
 Proof. exact symmetrize_shape_thm. Qed.
 Print Assumptions sparse_symmetrise_shape.
+
+(* on a well-formed CSR input (N+1 non-decreasing row pointers from 0 to nnz, columns < N,
+   distinct columns per row — what the K-NN overload produces) symmetrizeMatrix reads and
+   writes nothing out of range and leaves no slot of the malloc'ed arrays unwritten *)
+Theorem sparse_symmetrise_safe : forall V (vadd : V -> V -> V) (vhalf : V -> V) (p : csr V) N,
+  wf_csr N p -> exists s, symmetrize V vadd vhalf p N = Ok s.
+Proof. exact symmetrize_safe. Qed.
+Print Assumptions sparse_symmetrise_safe.
+
+Example sparse_symmetrise_safe_nonvacuous : wf_csr 3 (mkCsr [0; 1; 2; 3]%nat [1; 2; 0]%nat [1; 2; 3]%nat).
+Proof. exact wf_csr_example. Qed.
+
+(* the counting behind it: row_counts[x] (first pass) is exactly the number of times offset[x]
+   is advanced (second pass), so every store sym_*_P[sym_row_P[x] + offset[x]] stays below
+   sym_row_P[x + 1] *)
+Theorem sparse_symmetrise_counts : forall V (p : csr V) N, wf_csr N p ->
+  forall x, (x < N)%nat -> SC V p N x = SF V p N x.
+Proof. exact SC_eq_SF. Qed.
+Print Assumptions sparse_symmetrise_counts.
